@@ -517,7 +517,7 @@ def gen_symtab(rng, nops, clean):
     for _ in range(rng.randint(0, 2)):
         emit([A('newtab'), rng.choice([A('none')] + list(range(len(ref.maps))))])
     for _ in range(rng.randint(1, 3)):
-        emit([A('new'), rng.randint(1, 99)])
+        emit([A('new'), rng.choice([0, rng.randint(1, 99)])])
     while len(ops) < nops:
         T, H = len(ref.maps), len(ref.hs)
         i = rng.randrange(T)
@@ -534,7 +534,7 @@ def gen_symtab(rng, nops, clean):
             form = 'dict' if len({kk for kk, _ in kvs}) == len(kvs) and rng.random() < 0.6 else 'list'
             emit([A('update'), i, A(form)] + kvs)
         elif r < 0.28:
-            emit([A('get'), i, k])
+            emit([A('get'), i, k] if rng.random() < 0.5 else [A('getd'), i, k, rng.randint(0, 9)])
         elif r < 0.33:
             emit([A('getitem'), i, k])
         elif r < 0.43:
@@ -542,12 +542,12 @@ def gen_symtab(rng, nops, clean):
         elif r < 0.48:
             emit([A('contains'), i, k])
         elif r < 0.60:
-            o = rng.choice(['del', 'pop', 'popd'])
+            o = rng.choice(['del', 'pop', 'popd', 'popdv'])
             if clean:
                 k = cf(k) if rng.random() < 0.3 or not present else rng.choice(present)
             elif present and rng.random() < 0.5:
                 k = rng.choice(spellings(rng.choice(present)))
-            emit([A(o), i, k])
+            emit([A(o), i, k] + ([rng.randint(0, 9)] if o == 'popdv' else []))
         elif r < 0.65:
             pk = rng.choice([A('inherit'), A('inherit'), A('none'), rng.randrange(T)])
             if clean and str(pk) == 'inherit' and ref.parent[i] is not None and not ref.maps[ref.parent[i]]:
@@ -563,7 +563,7 @@ def gen_symtab(rng, nops, clean):
                     p = A('none')
                 emit([A('setparent'), j, p])
         elif r < 0.72:
-            emit([A('new'), rng.randint(1, 99)])
+            emit([A('new'), rng.choice([0, rng.randint(1, 99)])])
         elif r < 0.78:
             emit([A('mutate'), rng.randrange(H), rng.randint(100, 199)])
         elif scoped:
@@ -594,28 +594,30 @@ def gen_dict(rng, kind, nops, clean):
     bases = rng.sample(['key', 'mode', 'Routine_A', 'x'], rng.randint(1, 3))
     sp = lambda b: [b, b.lower(), b.upper(), b.capitalize(), b.swapcase()]
     name = lambda: rng.choice(sp(rng.choice(bases)))
+    # values: 0..3 are the falsy payloads 0, '', (), False (see enc/dec); explicit defaults are drawn from the same domain
+    value = lambda: rng.randrange(len(FALSY)) if rng.random() < 0.4 else rng.randint(len(FALSY), 99)
     while len(ops) < nops:
         r = rng.random()
         k = name()
         present = list(ref.m)
         raw_ok = not (clean and kind == 'cidd')      # clean cidd histories write lower-case keys only
         if r < 0.2:
-            op = [A('set'), k, rng.randint(1, 99)]
+            op = [A('set'), k, value()]
         elif r < 0.3:
-            op = [A('get'), k]
+            op = [A('get'), k] if rng.random() < 0.4 else [A('getd'), k, value()]
         elif r < 0.4:
             op = [A('getitem'), k]
         elif r < 0.5:
             op = [A('contains'), k]
         elif r < 0.7:
-            o = rng.choice(['del', 'pop', 'popd'])
+            o = rng.choice(['del', 'pop', 'popd', 'popdv'])
             if clean:
                 k = k.lower() if rng.random() < 0.3 or not present else rng.choice(present)
-            op = [A(o), k]
+            op = [A(o), k] + ([value()] if o == 'popdv' else [])
         elif r < 0.85:
-            op = [A('setdefault'), k if raw_ok else k.lower(), rng.randint(1, 99)]
+            op = [A('setdefault'), k if raw_ok else k.lower(), value()]
         else:
-            kvs = [[name() if raw_ok else name().lower(), rng.randint(1, 99)] for _ in range(rng.randint(0, 3))]
+            kvs = [[name() if raw_ok else name().lower(), value()] for _ in range(rng.randint(0, 3))]
             form = 'dict' if len({kk for kk, _ in kvs}) == len(kvs) and rng.random() < 0.6 else 'list'
             op = [A('update'), A(form)] + kvs
         ops.append(op)
@@ -648,7 +650,8 @@ class C12(Prop):
     props_module = 'LokiModel.Props.C12'
     driver = 'Drivers/C12.lean'
     theorems = ['C12_inv_init', 'C12_step', 'C12_run_refines', 'C12_full_holds', 'C12_del_agrees_with_contains',
-                'C12_spelling_irrelevant', 'C12_mutate_independent', 'C12_fold_idem',
+                'C12_spelling_irrelevant', 'C12_default_only_when_absent', 'C12_dict_default_only_when_absent',
+                'C12_mutate_independent', 'C12_fold_idem',
                 'C12_no_sharing', 'C12_copies_independent', 'C12_set_stores_copy',
                 'C12_dict_step', 'C12_dict_run', 'C12_dict_full_holds']
     findings_module = 'LokiModel.Findings.C12'
@@ -656,8 +659,8 @@ class C12(Prop):
     level = 'proof'
     level_text = (
         'Lean theorems, all unbounded and at FULL strength since the six fix: commits (no Known hypothesis left): C12_step — for every '
-        'state satisfying the invariant and every one of the 21 operations of the model of SymbolTable/Scope (set, setdefault, update, '
-        'get, [], lookup recursive/non-recursive, in, del, pop, pop(k,None), clone, parent setter, Scope(), declare, Scope.update, '
+        'state satisfying the invariant and every one of the 23 operations of the model of SymbolTable/Scope (set, setdefault, update, '
+        'get, get(k,default), [], lookup recursive/non-recursive, in, del, pop, pop(k,None), pop(k,default), clone, parent setter, Scope(), declare, Scope.update, '
         'get_type, get_symbol_scope, _reset_parent, creating/mutating SymbolAttributes handles) the abstraction to "scope -> folded '
         'name -> value" commutes with the step, the output is the output of that mapping (innermost-declaration look-up) and the '
         'invariant (stored keys folded and unique; scope parent = table parent; scope parents are scopes) is kept; C12_run_refines / '
@@ -682,7 +685,8 @@ class C12(Prop):
     rule = ('random histories of 8-40 ops over a chain of 1-4 nested Scope objects plus bare/cloned SymbolTables, names drawn from 4 base '
             'names x 7 spellings (lower, UPPER, Capitalised, mIXED, with (1) / (i,J) / (:) suffixes); 2/3 of the histories delete by '
             'stored key, 1/3 use any spelling anywhere (the former known classes); dictionaries: histories of 4-40 ops over 5 spellings '
-            'of 1-3 keys; distinct by request line')
+            'of 1-3 keys, values and explicit get/pop defaults include the falsy payloads 0, \'\', (), False; symbol tables: get/pop '
+            'also with explicit sentinel defaults, tag 0 handles; distinct by request line')
     trusted_base = ['harness/props/c12.py Real/RealDict (drives the real objects, canonicalises outputs)',
                     'harness/props/c12.py Ref/RefDict reference mappings (direct oracle)', 'Lean driver evaluation of model definitions']
     assumptions = ['ASCII names (str.lower modelled on ASCII)', 'all tables/scopes stay alive (weak parent references never die)',
